@@ -8,7 +8,7 @@ from report import Result, Ob, eq_ob, req_ob
 import config_model as CM
 
 KNOWN = {"scatter", "cumsum", "gather", "permidx", "elem"}
-KNOWN_CONTOUR = {"cumsum", "gather", "permidx", "elem", "at", "abs", "searchsorted", "last", "pick", "min", "max", "idx", "sum"}
+KNOWN_CONTOUR = {"cumsum", "gather", "permidx", "elem", "at", "abs", "searchsorted", "last", "pick", "min", "max", "idx", "sum", "countwhere"}
 TRUST = "numpy: argsort ascending and stable; a[::-1] / np.flip reverse; cumsum inclusive prefix sums; searchsorted(side='left') first index with c[i] >= v; a[p] gathers, a[p] = v scatters"
 
 
@@ -148,6 +148,37 @@ def contour_obligations(P):
     return obs
 
 
+def level_slice_obligations(P):
+    """R-LEVEL: for 3-D input the helper hands on exactly field[level] and grid[k][level] for the index as given (negative
+    from-the-end indices included) - interpreted with a symbolic level and compared with direct indexing"""
+    obs = []
+    site = "src/bldfm/plotting/_common.py::_maybe_slice_level"
+    nz, ny, nx = (alg.sym(n, pos=True, integer=True) for n in ("nz", "ny", "nx"))
+    lev = alg.sym("level", integer=True)
+    F = SymArr("flx3", 3, shape=(nz, ny, nx))
+    G = [SymArr(n, 3, shape=(nz, ny, nx)) for n in ("X3", "Y3", "Z3")]
+    try:
+        res = CM.run_paths(P, "bldfm.plotting._common", "_maybe_slice_level", [F, Tup(G)], {"level": lev})
+    except AnalysisError as e:
+        return [req_ob("R-LEVEL", site, "the level helper is interpretable", None, detail=str(e))]
+    rets = [r for r in res if r.kind == "return"]
+    if not rets or len(rets) != len(res):
+        return [req_ob("R-LEVEL", site, "the level helper returns on every path for 3-D input", False if res else None, detail=str([(r.kind, r.raise_desc) for r in res])[:200])]
+    for r in rets:
+        v = r.value
+        ok = isinstance(v, Tup) and len(v.items) == 2 and isinstance(v.items[0], Arr) and isinstance(v.items[1], Tup) and len(v.items[1].items) == 3
+        if not ok:
+            obs.append(req_ob("R-LEVEL", site, "returns (field, (X, Y, Z))", None, detail=repr(v)[:200]))
+            continue
+        tag = "" if len(rets) == 1 else " (path: %s)" % "; ".join("%s=%s" % (d[:40], b) for d, b in r.path)[:120]
+        want = alg.fn("at", F.sym, lev, alg.fn("idx", ny, integer=True), alg.fn("idx", nx, integer=True), pos=F.elempos)
+        obs.append(eq_ob("R-LEVEL", site, "the field handed on is field[level] for the level as given%s" % tag, v.items[0].val, want, key={"what": "field"}))
+        for g, out in zip(G, v.items[1].items):
+            w = alg.fn("at", g.sym, lev, alg.fn("idx", ny, integer=True), alg.fn("idx", nx, integer=True), pos=g.elempos)
+            obs.append(eq_ob("R-LEVEL", site, "coordinate %s handed on is %s[level]%s" % (g.name, g.name, tag), out.val if isinstance(out, Arr) else out, w, key={"what": g.name}))
+    return obs
+
+
 def check_C20(P, tier):
     R = Result("C20", tier)
     R.min_obligations = 14
@@ -162,5 +193,6 @@ def check_C20(P, tier):
     R.trusted = [TRUST]
     R.add(source_area_obligations(P))
     R.add(contour_obligations(P))
+    R.add(level_slice_obligations(P))
     R.analysed = {"files": ["src/bldfm/utils.py", "src/bldfm/plotting/footprint.py", "src/bldfm/plotting/_common.py"], "functions": ["get_source_area", "extract_percentile_contour", "_maybe_slice_level"], "paths": 3}
     return R, "order-only information flow; dtype flow; recognised sort/prefix patterns as structured atoms"
